@@ -4,7 +4,7 @@ C01 part B2 — part 13 (towards `split_legs ∘ combine_legs`): pieces of a lis
 given by the axis descriptions; the rows of `q_map` against `q_map_slices` (every row lies in the range of its
 outgoing block; a row is determined by its incoming block indices).
 -/
-namespace TenpyModel.C01B2
+namespace TenpyModel.C01B2.Comb
 open TenpyModel.Core TenpyModel.C01B
 
 /-! ### pieces of a concatenation -/
@@ -138,4 +138,4 @@ theorem qMap_row_inv (legs : List Leg) (qconj : Int) (sort bunch : Bool) (hsh : 
     exact l3)
   exact Fin.mk.inj e
 
-end TenpyModel.C01B2
+end TenpyModel.C01B2.Comb
